@@ -76,8 +76,10 @@ class C13(PropBase):
             "aliasing targets (x29/fp, x30/lr), two modules with one leaf name, evil-json certificates listing one module twice, "
             "Linux key/value streams (lsb/status/cpuinfo/environ/limits) over the key literals of the readers with conflicting duplicates, "
             "33..80 threads with a per-module suspension script (completion order != thread order), CFI rules that leave the evaluator early "
-            "after a push (state leaking between evaluations), PUBLIC records sharing an address; rendering 0 is the synchronous one and "
-            "threads[] must be in thread-list order. "
+            "after a push (state leaking between evaluations), PUBLIC records sharing an address, STACK CFI delta lines that re-define a register "
+            "and then define its alias (x29/fp, x30/lr, r11/fp, r14/lr; 25 in-process runs), 2..4 threads in deep recursion (17 000..40 000 frames "
+            "together, stacks synthesised by the harness from deep=) under per-module suspension scripts rotated per run; rendering 0 is the "
+            "synchronous one and threads[] must be in thread-list order. Q cases: the registers of an arm64 CFI caller frame against C13.Cfi.a64_walk. "
             "R cases: names of the proc_limits array against the model; E: cert_subject per module; L: lsb_release fields, text line, pid, microcode. Non-trivial = at least one thread processed; "
             "distinct = distinct case lines")
     trusted_base = [
@@ -90,17 +92,25 @@ class C13(PropBase):
         "(to_string_lossy is the identity there), correspondence-checked (L cases); walks in place = events (i, f) that transform slot i only",
         "translate/c13_sites.py (name-based regex/bracket scan, not a type checker: hash containers reached through pattern bindings, aliases or "
         "generics are not seen) and C13/Sites.v (the classification of each site is a reading of the code)",
+        "C13/Adaptive.v: an adaptive walk is a finite decision tree over lookup answers, stepped with C12's begin_call / complete / hit on C12's shared record; "
+        "C13/Budget.v: the statements of a walk future after walk_stack(..).await run as one atomic step at completion (no await among them: pinned by "
+        "walk_future_steps); C13/Cfi.v: walk_with_stack_cfi as insert-overwrite map -> arbitrary iteration -> sort by name -> fold of an arbitrary per-rule "
+        "state transformer; the arm64 instance (memoize table, callee-saved list regenerated from the source) is correspondence-checked (Q cases)",
         "extraction ExtrOcamlBasic only; ocaml/c13/main.ml; harness/src/bin/c13.rs + harness/src/dumpspec.rs",
         "the direct oracle is testing: it shows byte-identical output on the schedules / hash seeds it ran, nothing more",
     ]
     assumptions = [
         "partial: tokio's scheduler, std RandomState, serde_json and the symbol parser are not modelled; the theorems cover the order-sensitive "
         "logic (sorting before emission, index-addressed join, one answer per module key, stats by leaf name), the rest is the repeated-run oracle",
-        "a thread's walk is modelled as a fixed list of lookups (C12's task) followed by an arbitrary function of the answers; lookups chosen adaptively "
-        "from earlier answers are covered by the oracle only",
+        "adaptive walks (next lookup chosen from the answers so far) are decision trees of finite depth in C13/Adaptive.v and refine C12's fixed-list "
+        "model for every schedule; that walk_stack IS such a tree (its lookups depend on nothing but the dump and the answers) is a reading of the code, "
+        "exercised by the repeated-run oracle",
+        "the classification of the walk future's captures / steps / cells in C13/Sites.v (SharedImmutable, ReporterOnly, OwnSlotOnly, SymbolizerC12) is a "
+        "reading of the code; the scan guarantees only that the lists are complete for the scanned files and shapes",
         "c13_stats_independent needs the visible hypothesis leaf_injective (distinct module keys have distinct leaf names); without it "
         "c13_stats_refuted holds and the code shows it (known finding F-C13c)",
-        "CFI rule order (F-C13b) is C06's theorem; here the sort is pinned by the site scan and exercised (arm64 alias inputs)",
+        "CFI rule order: the evaluator itself is C06's model; here the ORDER of application is a theorem for an arbitrary per-rule transformer "
+        "(c13_cfi_rule_order_independent), the sort is pinned by the site scan, the arm64 instance is compared with the code (Q) and exercised (alias inputs)",
         "MultiSymbolProvider::stats extends one map with each provider's map: order matters only if two providers report the same leaf name (not modelled)",
     ]
     manifest = {
@@ -115,7 +125,17 @@ class C13(PropBase):
                 "collecting results in completion order is refuted; every HashMap/HashSet iteration and every future combinator the source scan finds "
                 "is one of the enumerated, classified sites (c13_hash_sites_modelled, c13_concurrency_sites_modelled), likewise every thread_local / "
                 "static mut / interior-mutable static (c13_shared_state_sites_modelled); the proc_limits pipeline from the stream bytes is order "
-                "independent with no hypothesis left (c13_limits_pipeline_order_independent). Everything beyond these cores is checked by a direct oracle only: the same input processed "
+                "independent with no hypothesis left (c13_limits_pipeline_order_independent). Round 5: ADAPTIVE walks (the next lookup depends on the "
+                "answers so far) refine C12's fixed-list model poll for poll under every schedule (c13_adaptive_refines_fixed_model), so every finished walk returns "
+                "the value at the end of the path the supplier's answers select and the stats snapshot is schedule independent (c13_adaptive_walks_determined / "
+                "_schedule_independent / _answers_determined / _stats_independent); the statements a walk future runs after walk_stack, as an atomic step on state "
+                "shared by the futures: any commuting steps (in particular read-only ones, today's code) give one thread list for every completion order "
+                "(c13_post_walk_commuting_independent, c13_post_walk_readonly_independent), a first-come-first-served budget is refuted (c13_frame_budget_refuted); "
+                "STACK CFI register rules: one rule per name (the last written), applied sorted by name, hence the same caller registers for every iteration "
+                "order of the rule map and every walker incl. aliases (c13_cfi_rule_order_independent, c13_cfi_last_rule_wins), a non-unique sequence key is "
+                "refuted (c13_cfi_seq_order_refuted), the arm64 instance is compared with the real unwinder (Q cases); every cell writable through a shared "
+                "reference, every capture and every statement of the per-thread future is an enumerated, classified site (c13_interior_mutable_sites_modelled, "
+                "c13_walk_future_captures_modelled, c13_walk_future_steps_modelled: one await, no cell written in the body). Everything beyond these cores is checked by a direct oracle only: the same input processed "
                 ">= 13 times in-process (fresh hash seeds; first synchronously, then under three executors with rotated supplier delays / per-module "
                 "suspension counts) must give byte-identical JSON and text with threads[] in thread-list order.",
         "note": "Trusted: Coq kernel; hand-written models (limits renderer correspondence-checked here, Symbolizer model by C12); the oracle is search, not proof. "
@@ -460,6 +480,26 @@ class C13(PropBase):
             toks.append("T=%d:%d:%s:%s" % (t + 1, base, hx(stack), ",".join(regs)))
         return " ".join(toks)
 
+    def cfi_q_case(self, rng):
+        """Q: STACK CFI rules (constants / failing expressions) over arm64 register names incl. both names of x29 and x30, names the
+        walker does not know, re-definitions on the same and on later lines; model = C13.Cfi.a64_walk"""
+        pool = ["x19", "x20", "x21", "x28", "x29", "fp", "x30", "lr", "x0", "x31", "foo", "x29", "fp"]
+        used = set()
+        def val():
+            if rng.chance(1, 8):
+                return "!"
+            while True:
+                v = rng.range(100, 999)
+                if v not in used:
+                    used.add(v)
+                    return str(v)
+        lines = []
+        for i in range(rng.range(1, 4)):
+            n = rng.below(4) if i == 0 else rng.range(1, 4)
+            lines.append(",".join("%s=%s" % (rng.choice(pool), val()) for _ in range(n)) or "-")
+        callee = ",".join("%s=%d" % (n, rng.range(1000, 9999)) for n in ["x19", "x20", "x21", "x22", "x23", "x24", "x25", "x26", "x27", "x28", "fp", "x0"])
+        return "Q %s %s" % (callee, ";".join(lines))
+
     def deep_threads_case(self, rng, total_min=17000, total_max=24000):
         """2..4 threads in deep recursion (thousands of frames each, tens of thousands together; stacks generated by the
         harness from deep=), each thread in its own module, modules with CFI / without symbols (frame pointers), and a
@@ -524,6 +564,10 @@ class C13(PropBase):
         for _ in range(n_l):
             cases.append("L %s %s %s" % tuple(hx(self.kv_stream(rng, keys, sep)) or "-" for sep in ("=", ":", ":")))
         dist["L_linux_kv_streams"] = n_l
+        n_q = n_r // 3
+        for _ in range(n_q):
+            cases.append(self.cfi_q_case(rng))
+        dist["Q_cfi_rule_order_arm64"] = n_q
         for _ in range(n_fam):
             cases.append(self.linux_streams_case(rng, keys) + " " + self.sched_suffix(rng))
             cases.append(self.many_threads_case(rng))
@@ -621,7 +665,7 @@ class C13(PropBase):
     def oracle(self, case, ans, profile):
         if ans.startswith("P;;"):
             return "panic or hang while processing: " + ans[3:240]
-        if case[:2] in ("R ", "E ", "L "):
+        if case[:2] in ("R ", "E ", "L ", "Q "):
             return None if ans[:1] == case[0] else "unparseable answer " + ans[:80]
         d = dict(t.split("=", 1) for t in ans.split() if "=" in t)
         if "n" not in d:
@@ -645,7 +689,7 @@ class C13(PropBase):
         return msg
 
     def nontrivial(self, case, ans):
-        if case[:2] in ("R ", "E ", "L "):
+        if case[:2] in ("R ", "E ", "L ", "Q "):
             return len(ans) > 2
         return " thr=0 " not in ans and ans.startswith("n=")
 
